@@ -122,24 +122,53 @@ func main() {
 	case "oracle":
 		cmdOracle(*prop, *seed, *n, *out)
 	case "oracle-replay":
+		// -case is the JSON of an oracleFailure.  Oracles that can re-check a
+		// stored failure do so (STILL-FAILS lines carry the signature); failures
+		// that name a model-free family and a case are re-executed through it.
 		var f oracleFailure
 		if err := json.Unmarshal([]byte(*cs), &f); err != nil {
 			fmt.Fprintln(os.Stderr, "bad failure json:", err)
 			os.Exit(2)
 		}
-		found := 0
+		found, tried := 0, 0
 		for _, o := range oracles[*prop] {
 			if o.replay == nil {
 				continue
 			}
+			tried++
 			for _, g := range o.replay(f) {
 				b, _ := json.Marshal(g)
 				fmt.Println("STILL-FAILS", string(b))
 				found++
 			}
 		}
+		if fm := families[f.Family]; found == 0 && fm != nil && f.Case != "" && fm.classify == nil && f.Family != "api" {
+			c, err := parseSx(f.Case)
+			if err != nil {
+				fmt.Fprintln(os.Stderr, "bad case:", err)
+				os.Exit(2)
+			}
+			tried++
+			obs := runGuarded(fm, c, 60*time.Second)
+			fmt.Println("case:    ", f.Case)
+			fmt.Println("expected:", f.Signature, f.What)
+			fmt.Println("observed:", obs)
+			if strings.HasPrefix(obs, "FAIL") || obs == "PANIC" || obs == "HANG" {
+				sig := f.Signature
+				if parts := strings.Fields(obs); len(parts) > 1 && strings.HasPrefix(parts[1], "C") && strings.Contains(parts[1], ":") {
+					sig = parts[1]
+				}
+				b, _ := json.Marshal(oracleFailure{Property: *prop, Signature: sig, What: obs, Family: f.Family, Case: f.Case})
+				fmt.Println("STILL-FAILS", string(b))
+				found++
+			}
+		}
 		if found > 0 {
 			os.Exit(1)
+		}
+		if tried == 0 {
+			fmt.Println("not replayable:", *cs)
+			os.Exit(2)
 		}
 		fmt.Println("no failure reproduced on the current tree")
 	case "coqcases":
